@@ -382,6 +382,9 @@ def master_main(a):
             new_viol.setdefault(v['key'], []).append(v)
     for key, vs in sorted(known_hit.items()):
         print(f'KNOWN-FINDING: property={prop} {key}: {known[key]["summary"]} (seen {len(vs)}x this run)')
+        if os.environ.get('PV_SHOW_KNOWN'):
+            v = min(vs, key=lambda x: len(json.dumps(x)))
+            print(f'    e.g. case {v["idx"]}: {v["msg"][:600]}')
     replays = []
     os.makedirs(os.path.join(VERIF, 'replays'), exist_ok=True)
     for key, vs in sorted(new_viol.items()):
